@@ -1176,6 +1176,13 @@ func runFsCrash(o opts) error {
 	if err != nil {
 		return err
 	}
+	// the traced children are always the plain binary: a coverage-instrumented one (thorough tier) makes
+	// write() calls of its own, and the injected faults count system calls
+	if strings.HasSuffix(self, "vh_cov") {
+		if plain := strings.TrimSuffix(self, "_cov"); fileExists(plain) {
+			self = plain
+		}
+	}
 	thorough := o.tier == "thorough"
 	w := &hx.Writer{Dir: o.out, Prop: prop, Imports: "Bytes Errors Consts FsCrash CorrBase FsCrashCorr",
 		CaseType: "fcase", Mism: "fscrash_mismatches_st selftest", Viol: "fscrash_violations", PerShard: 50, Stats: map[string]int{}}
@@ -1377,4 +1384,9 @@ func runFsCrash(o opts) error {
 	w.Prelude = "Definition selftest : list fcase := [\n  " + strings.Join(selfTerms, ";\n  ") + "].\n" +
 		"Definition selftest_flagged := Eval vm_compute in List.length (fscrash_violations selftest).\nPrint selftest_flagged."
 	return w.Flush()
+}
+
+func fileExists(p string) bool {
+	_, err := os.Stat(p)
+	return err == nil
 }
